@@ -111,6 +111,11 @@ def addProps {α : Type} : Dict α × List Warning → List (PropArr α) → Out
     | .valueError => .valueError
     | .indexError => .indexError
 
+/-- `np.prod(trail)` : the length of `values[r].ravel()` -/
+def prodNat : List Nat → Nat
+  | [] => 1
+  | d :: ds => d * prodNat ds
+
 structure InMemGeff (α : Type) where
   nodeIds : List α
   edgeIds : List (α × α)
@@ -127,7 +132,7 @@ structure Tables (α : Type) where
   nodeWarnings : List Warning
   edges : Dict α
   edgeWarnings : List Warning
-deriving Repr
+deriving Repr, DecidableEq
 
 /-- `geff_to_dataframes` after `read_to_memory` -/
 def geffToDataframes {α : Type} (g : InMemGeff α) : Outcome (Tables α) :=
